@@ -212,7 +212,7 @@ class OpsMixin:
                 emit(fr)
                 return True
             g = gens[i]
-            it = self.eval(g.iter, fr)
+            it = self.eval(g.iter, frame if i == 0 else fr)     # the outermost iterable belongs to the enclosing scope
             items = self.iterate(it, g.iter, fr)
             if items is None:
                 return False
@@ -664,6 +664,22 @@ class OpsMixin:
                             self.facts[k] = ("ne", ne)
                 return c
             return self.decide(self.describe_cond(node), node, frame)
+        if isinstance(container, GenVal):
+            # `x in iterator` consumes the iterator up to and including the first match (all of it when there is none)
+            rest = container.items[container.pos:]
+            k = fact_key(item) if isinstance(item, Sym) else None
+            if k is not None and self.facts.get(k, (None,))[0] == "eq":
+                item = self.facts[k][1]
+            if self.is_static(item) and all(self.is_static(x) for x in rest):
+                for i, x in enumerate(rest):
+                    if x == item:
+                        self.gen_advance(container, container.pos + i + 1, node, frame)
+                        return True
+                self.gen_advance(container, len(container.items), node, frame)
+                return False
+            c = self.decide(self.describe_cond(node), node, frame)
+            self.gen_advance(container, len(container.items) if not c else min(container.pos + 1, len(container.items)), node, frame)
+            return c
         if isinstance(container, (Unknown, SymAny, SymList, SymStr)):
             return self.decide(self.describe_cond(node), node, frame)
         raise PyRaise(Instance(self.bclasses["TypeError"],
@@ -867,7 +883,9 @@ class OpsMixin:
         if isinstance(v, dict):
             return list(v.keys())
         if isinstance(v, GenVal):
-            return v.take_all()
+            rest = v.items[v.pos:]
+            self.gen_advance(v, len(v.items), node, frame)
+            return rest
         if isinstance(v, Buf) and v.cells is not None:
             return list(v.cells)
         if isinstance(v, View) and v.length is not None:
